@@ -40,20 +40,17 @@ pub trait DeriveShape {
 
 impl DeriveShape for FuncDef {
     fn derive_shape(&self, symbol_table: &mut BTreeMap<Rc<str>, Shape>) -> Shape {
-        // 1. First set up our symbols.
-        let mut sym_table = self
-            .argdefs
-            .iter()
-            .map(|(sym, constraint)| {
-                let shape = if let Some(c) = constraint {
-                    c.derive_shape(symbol_table)
-                } else {
-                    Shape::Hole(sym.clone())
-                };
-                (sym.val.clone(), shape)
-            })
-            .collect::<BTreeMap<Rc<str>, Shape>>();
-        sym_table.append(&mut symbol_table.clone());
+        // 1. First set up our symbols. The arguments shadow any binding of
+        // the same name in the enclosing scope.
+        let mut sym_table = symbol_table.clone();
+        for (sym, constraint) in self.argdefs.iter() {
+            let shape = if let Some(c) = constraint {
+                c.derive_shape(symbol_table)
+            } else {
+                Shape::Hole(sym.clone())
+            };
+            sym_table.insert(sym.val.clone(), shape);
+        }
         // 2. Then determine the shapes of those symbols in our expression.
         let shape = self.fields.derive_shape(&mut sym_table);
         // 3. Finally determine what the return shape can be.
